@@ -14,6 +14,7 @@ import (
 	"verifharness/evid"
 	"verifharness/gen"
 	"verifharness/ref"
+	"verifharness/simnet"
 	"verifharness/srv"
 )
 
@@ -75,6 +76,14 @@ func c08(c *evid.Ctx) {
 			return
 		}
 		own := n.S.ID()
+		// For one asker in sixteen the socket reports a short write: that asker must still see
+		// exactly one datagram (the truncated one), never a second attempt.
+		n.Conn.SetHook(func(d simnet.Datagram) error {
+			if d.To.Port%16 == 3 {
+				return simnet.ErrShortWrite
+			}
+			return nil
+		})
 		budget := total / len(cfgs)
 		if cf.passive || cf.veto {
 			budget = total / 8
